@@ -254,6 +254,10 @@ func genFunction(prog *ssa.Program, cs *Contracts, fn *ssa.Function, fc *FuncCon
 			}
 		}
 		for _, cl := range fc.Clauses {
+			if cl.Kind == "canary" {
+				o := c.oblige(rst, "canary", cl.Label, cl.Props, c.evalBool(envE, cl.Expr), fn.Pos(), "canary (a false postcondition that must not be provable): "+cl.Src)
+				o.Canary = true
+			}
 			if cl.Kind == "ensures" {
 				o := c.oblige(rst, "post", cl.Label, cl.Props, c.evalBool(envE, cl.Expr), fn.Pos(), "postcondition: "+cl.Src)
 				if vals, plan := c.postReplayValues(fr, fr.old, "post"); plan != nil {
@@ -514,6 +518,17 @@ func discharge(o *Obligation, outDir string, timeoutS int) *OblResult {
 	}
 	q := o.query()
 	r.Query = q
+	if o.Canary {
+		sr := solve(outDir, o.Name, []queryVariant{{"", q, true}}, timeoutS)
+		r.Solver, r.Ms, r.Output, r.AllStat = sr.Solver, sr.Ms, sr.Output, sr.All
+		if sr.Status == "unsat" {
+			r.Status = "failed"
+			r.Output = "the canary clause was PROVED: the obligations of this function are vacuous (contradictory assumptions) or the generator is unsound\n" + r.Output
+		} else {
+			r.Status = "discharged"
+		}
+		return r
+	}
 	variants := []queryVariant{{"", q, true}}
 	if !o.ExpectSat && !strings.Contains(o.Goal.S, "(forall ") && !strings.Contains(o.Goal.S, "(exists ") {
 		if qf := o.queryVariant(true); len(qf) != len(q) {
